@@ -149,6 +149,15 @@ def check_C13(tier, seed):
             res.violation(f"a row does not carry exactly the declared, well-typed outputs: query {inst['text']!r}", text="badrow", tags=inst_tags(inst), replay=replay_case(inst, o, declared=tla_unquote(v["C13.badrow"])))
         elif "C13.ok" in v and o["exec"]["rows"]:
             res.sample({"query": inst["text"], "declared": {d[0]: d[1]["text"] for d in o["ir"]["declared"]}, "rows": len(o["exec"]["rows"])}, cap=4)
+        elif o.get("compile", {}).get("t") == "ok" and o.get("exec", {}).get("t") == "panic" and "ir" in o:
+            # the harness is a debug build: the engine's own assertion that a row's keys are the declared output names fires before a malformed
+            # row can be observed. That assertion failing IS this property failing (left = the declared names, right = the row's keys).
+            m = re.search(r"left: \{([^}]*)\}\s*right: \{([^}]*)\}", o["exec"]["err"])
+            if m:
+                left = set(re.findall(r'"([^"]*)"', m.group(1))); right = set(re.findall(r'"([^"]*)"', m.group(2)))
+                if left == {d[0] for d in o["ir"]["declared"]} and right != left:
+                    res.violation(f"a row does not carry exactly the declared outputs (the engine's own debug assertion fired: row keys {sorted(right)}, declared {sorted(left)}): query {inst['text']!r}",
+                                  text="badrow-keys", tags=inst_tags(inst), replay=replay_case(inst, o))
     return res
 
 # ------------------------------------------------------------------ C09
